@@ -141,13 +141,13 @@ def run(ctx: Ctx):
     lits = G.rule_literals(cname)
     shapes = [G.terms[t]["shape"] for t in terms if t in G.terms]
     regexes = re.findall(r"/((?:[^/\\]|\\.)*)/", crule["shape"]) + [m for s in shapes for m in re.findall(r"/((?:[^/\\]|\\.)*)/", s)]
-    ok_c = bool(regexes) and all(rx in (r"#[^\n]*", r"#[^\n\r]*", r"#[^\r\n]*") for rx in regexes) and not lits
+    ok_c = bool(regexes) and all(_comment_regex_stops_at(rx) == {"\n"} for rx in regexes) and not lits
     ctx.check(
         ok_c,
         "R17.b",
         "src/gotranx/ode.lark::comment::terminal",
         "COMMENT: /#[^\\n]*/",
-        f"the comment rule is `{G.shape(cname)}` with regexps {regexes}: a `#` token followed by a separate text token lets the ignored white space (including the line break) slip in between, so an empty comment swallows the next line; the text part must not be able to match a line break",
+        f"the comment rule is `{G.shape(cname)}` with regexps {regexes}: a `#` token followed by a separate text token lets the ignored white space (including the line break) slip in between, so an empty comment swallows the next line; the text part must stop at the line feed and only there (a line ends only at a line feed: NEWLINE is (CR? LF)+ and a lone CR is ignored white space, so a comment that also stops at CR, or at any other character, hands the rest of its line to the parser as model text)",
         "src/gotranx/ode.lark",
     )
     exp = G.rule("expressions")
@@ -202,6 +202,8 @@ def run(ctx: Ctx):
     for short in NUMERIC_MODULES:
         mod = sm.module(short)
         reads = [n for n in ast.walk(mod) if isinstance(n, ast.Attribute) and n.attr in ANNOT and isinstance(n.ctx, ast.Load)]
+        # ... nor the comment text of the model as a whole (ODE.text / ODE.comments)
+        reads += [n for n in ast.walk(mod) if isinstance(n, ast.Attribute) and n.attr in ("text", "comments") and isinstance(n.ctx, ast.Load) and norm(n.value).split(".")[-1] == "ode"]
         ctx.check(not reads, "R17.c", f"{sm.rel(short)}::annotation-reads", "no annotation is read", f"{short} reads {sorted({norm(r) for r in reads})}: generated numerics / layout can depend on a unit, description or comment", f"{sm.rel(short)}:{reads[0].lineno}" if reads else sm.rel(short))
     # ode.py / atoms.py / ode_component.py: only pass-through copies
     for short in ("ode.py", "atoms.py", "ode_component.py"):
@@ -224,6 +226,31 @@ def run(ctx: Ctx):
 
 
 TEXT_TRANSFORMS = {"sub", "subn", "replace", "strip", "rstrip", "lstrip", "splitlines", "split", "join", "expandtabs", "translate", "lower", "upper", "format", "encode", "decode", "partition", "rpartition", "removeprefix", "removesuffix"}
+
+
+def _comment_regex_stops_at(rx: str):
+    """The characters at which `#<class>*` stops, when the regular expression is `#` followed by a starred character
+    class (or `.`); None for any other form."""
+    import re._constants as rc
+    import re._parser as rp
+
+    try:
+        items = list(rp.parse(rx))
+    except Exception:
+        return None
+    if len(items) != 2 or items[0] != (rc.LITERAL, ord("#")) or items[1][0] not in (rc.MAX_REPEAT,):
+        return None
+    lo, hi, body = items[1][1]
+    if lo != 0 or hi != rc.MAXREPEAT or len(body) != 1:
+        return None
+    op, arg = body[0]
+    if op == rc.ANY:
+        return {"\n"}
+    if op == rc.NOT_LITERAL:
+        return {chr(arg)}
+    if op == rc.IN and arg and arg[0][0] == rc.NEGATE and all(o == rc.LITERAL for o, _ in arg[1:]):
+        return {chr(c) for _, c in arg[1:]}
+    return None
 
 
 def check_raw_text(ctx: Ctx, rule: str):
